@@ -187,6 +187,27 @@ def make_tests(rng, sb, info, ents_by_mode, quick):
     return tests
 
 
+def probes_and_firsts(sb, tests):
+    """Purity: the answer of a test must not depend on what was evaluated before it on the same entry. `probes` are tests
+    whose answers differ between a link and its target for some entry of the sandbox; `firsts` is one test of every kind."""
+    def ino(p):
+        return os.lstat(os.path.join(sb, p)).st_ino
+    want = [["-perm", "777"], ["-perm", "4755"], ["-perm", "644"], ["-perm", "-4000"], ["-perm", "/7000"], ["-inum", str(ino("s/types/f1"))],
+            ["-inum", str(ino("s/types/l_f1"))], ["-links", "3"], ["-links", "1"], ["-uid", "54321"], ["-uid", "1"], ["-gid", "54322"], ["-gid", "65534"],
+            ["-user", "54321"], ["-samefile", "s/types/f1"], ["-samefile", "s/hl/h3_0"], ["-empty"], ["-type", "f"], ["-type", "l"], ["-xtype", "f"],
+            ["-xtype", "l"], ["-lname", "*"]]
+    by_args = {tuple(t.args): t for t in tests}
+    probes = [by_args[tuple(a)] for a in want if tuple(a) in by_args]
+    firsts = []
+    seen = set()
+    for t in tests:
+        key = (t.family, t.args[1][:1] if t.family in ("type", "xtype") and len(t.args) > 1 else "")
+        if key not in seen:
+            seen.add(key)
+            firsts.append(t)
+    return probes, firsts
+
+
 def label_args(batch):
     args = ["("]
     for i, t in enumerate(batch):
@@ -229,17 +250,23 @@ def worker(job):
         for e in ents_by_mode["P"]:
             st.inc("entries_of_type:" + e.type_letter())
         tests = make_tests(rng, sb, info, ents_by_mode, quick)
+        probes, firsts = probes_and_firsts(sb, tests)
         rng.shuffle(tests)
         # each worker takes its share of the tests
         tests = [t for i, t in enumerate(tests) if i % nw == k]
+        ordered = []
+        for i, f in enumerate(firsts):
+            if i % nw == k:
+                ordered.append([f] + probes)                     # f evaluated first, then every probe
+                ordered.append([f] + probes[::-1])
         # oracle answers under -P and -L differ for these evaluations (the discriminating ones)
         BATCH = 10
         cases = []
         meta = {}
         cid = 0
         for mode in "PHL":
-            for b in range(0, len(tests), BATCH):
-                batch = tests[b:b + BATCH]
+            batches = [tests[b:b + BATCH] for b in range(0, len(tests), BATCH)] + ordered
+            for batch in batches:
                 cid += 1
                 args = ["find", "-" + mode] + roots + ["-sorted"] + label_args(batch)
                 cases.append(("c%d" % cid, args))
@@ -271,6 +298,8 @@ def worker(job):
                     want = [e.path for e in ents if t.fn(e, mode)]
                     st.inc("evaluations", len(ents))
                     st.inc("family:" + t.family)
+                    if len(batch) > BATCH and i > 0:
+                        st.inc("purity_evaluations(test after a different first test)", len(ents))
                     st.add("distinct", (mode, tuple(t.args)))
                     if via == "inproc":
                         # how many of these evaluations discriminate between the link and its target
